@@ -1,8 +1,8 @@
 API = {"dir": "api", "pkgname": "api"}
 
 SPEC = {
-    "go": [dict(API, files=["api/c08_rig_test.go", "api/c08_generic_test.go", "api/c08_fuzz_test.go", "api/c08_test.go"],
-                test="TestVerifC08", n_quick=1500, n_thorough=60000, shards_quick=6, shards_thorough=16),
+    "go": [dict(API, files=["api/c08_rig_test.go", "api/c08_generic_test.go", "api/c08_fuzz_test.go", "api/c08_addparams_test.go", "api/c08_test.go"],
+                test="TestVerifC08", n_quick=1680, n_thorough=67200, shards_quick=6, shards_thorough=16),
            dict(dir="consensus/raft", pkgname="raft", files=["c08_pins_test.go.tmpl", "raft/c08_logop_test.go"],
                 test="TestVerifC08LogOp", n_quick=260, n_thorough=6000, shards_quick=4, shards_thorough=12),
            dict(dir="state/dsstate", pkgname="dsstate", files=["c08_pins_test.go.tmpl", "dsstate/c08_snap_test.go"],
@@ -21,6 +21,9 @@ SPEC = {
             "factors 0 / -1 / n, names, metadata, expiry, references, pin-update, where later pins leave EMPTY what earlier ones set, encoded and decoded "
             "with go-libp2p-raft's own encode/decode into ONE shared LogOp and applied with the real LogOp.ApplyTo on a dsstate (plus the same bytes through the real "
             "FSM.Apply), the pin handed to the tracker and the pin read back from the state per entry; onto = a pin decoded straight on top of another; "
+            "ap = add parameters (every boolean both ways, shard size / replication 0, default and other, empty and non-empty name / chunker / hash / layout / format, cid-version 0 / 1 / "
+            "negative / int boundaries, and 25 % with every member at its zero value) through the real ToQueryString, url.ParseQuery and AddParamsFromQuery; apraw = arbitrary queries "
+            "(absent keys, every spelling strconv.ParseBool accepts, unparsable texts, keys of the embedded options incl. the replication override) through AddParamsFromQuery; "
             "mpo / jso = a value B of each of the 21 record types decoded by ugorji msgpack / encoding/json INTO a destination that already holds a value A of the type (A mostly full, "
             "B mostly sparse: empty members, nil pointers, shorter lists, other map keys), against dec_onto; snap (package state/dsstate) = pinsets of 2..7 different pins through the real "
             "State.Marshal and State.Unmarshal onto the in-memory datastore, every pin read back; import (package cmdutils) = pinsets of 2..7 pins with different metadata through the real "
@@ -38,6 +41,8 @@ SPEC = {
               17: "equals_detects_every_field (Pin.Equals / PinOptions.Equals against field-by-field sameness)",
               21: "logop_reuse_roundtrip (a well-formed Raft log entry, decoded into the FSM's one shared LogOp and applied, hands the tracker the submitted pin "
                   "and stores its protobuf form, whatever the earlier entries were)",
+              23: "addparams_query_roundtrip (add parameters well-formed for the query form come back from ToQueryString / AddParamsFromQuery as themselves, up to PinUpdate, "
+                  "empty metadata keys and an empty chunker / hash read as the default)",
               22: "stream_fresh_roundtrip (a stream of records decoded in a loop - snapshot of a pinset through State.Marshal / Unmarshal, state export / import - "
                   "hands every well-formed pin back as its own stored form, whatever record was decoded before it)",
               20: "decoder_total (a malformed input makes a decoder panic or yield a value that cannot be re-encoded)"},
@@ -61,7 +66,7 @@ SPEC = {
         "seen by stream snap on the real code, not by the model)",
         "the malformed-input stream is fuzzing (a test, not a theorem): absence of panics is sampled",
     ],
-    "level_text": "33 theorems (Props/C08.v, all closed) over Gallina transcriptions of ProtoMarshal/ProtoUnmarshal/convertPinType, ToQuery/FromQuery with "
+    "level_text": "34 theorems (Props/C08.v, all closed) over Gallina transcriptions of ProtoMarshal/ProtoUnmarshal/convertPinType, ToQuery/FromQuery and AddParams.ToQueryString/AddParamsFromQuery with "
                   "real string split/join and decimal printing/parsing, TrackerStatus.String/FromString over the constant table regenerated from the "
                   "source, the msgpack/JSON field maps over the struct-tag table regenerated from the source (one generic round-trip theorem for every "
                   "well-formed tag table, instantiated on the current one), Pin.Equals/PinOptions.Equals, (growth item) a byte-level proto3 writer/reader of the stored pin, and the Raft FSM loop that decodes every log entry into one shared LogOp (decoding onto a used value, LogOp.ApplyTo with its reset of op.Cid: every well-formed entry comes out as itself whatever preceded it; refuted without the reset), decoding onto a used destination for both codecs and the record streams of State.Unmarshal / importState (fresh destination per record: identity; one destination for the stream: refuted for both codecs); each transcription is compared with the "
